@@ -1373,6 +1373,10 @@ func sameSliceValue(a, b ssa.Value) bool {
 }
 
 func c02Pump(c *Ctx) {
+	withoutInline(func() { c02PumpIn(c) })
+}
+
+func c02PumpIn(c *Ctx) {
 	const rule = "processAttack: every result received is observed (when metrics are enabled) and encoded before the next receive; a closed channel ends the pump with nil; a signal calls Stop and keeps draining unless Stop reports it was already stopped"
 	fn := c.P.Func("", "processAttack")
 	key := "cli-pump:main.processAttack"
